@@ -50,8 +50,10 @@ def run_tlc(module, cfg=None, env=None, workers=12, timeout=600, heap="8g", simu
     if deque:
         jopts.append("-Dtlc2.tool.queue.IStateQueue=StateDeque")
     e["JAVA_TOOL_OPTIONS"] = " ".join(jopts)
-    cmd = ["timeout", "-k", "10", str(int(timeout)), "tlc", "-workers", str(workers), "-metadir", meta, "-cleanup",
-           "-noGenerateSpecTE"]
+    # java is started directly (as the `tlc' wrapper does) so that -Xss also applies to the main thread,
+    # which computes the initial states (bracket tables of long programs are deep recursions)
+    cmd = ["timeout", "-k", "10", str(int(timeout)), "java", "-XX:+UseParallelGC", "-Xss1g", "-cp", _classpath(),
+           "tlc2.TLC", "-workers", str(workers), "-metadir", meta, "-cleanup", "-noGenerateSpecTE"]
     if coverage:
         cmd += ["-coverage", "1"]
     if simulate is not None:
